@@ -1,7 +1,7 @@
 (* C02 — preimage injectivity of the receipt / event / transaction-leaf / state-diff / block-hash
    encodings over the free term algebra: equal hash terms, equal committed projections. *)
 From Coq Require Import List ZArith Bool Lia.
-From V Require Import C01.Term C01.State C02.Model C02.Proofs_Enc C02.Proofs_Trie.
+From V Require Import C01.Term C01.State C02.Model C02.Proofs_Enc C02.Proofs_Trie C02.Proofs_Tx.
 Import ListNotations.
 Open Scope Z_scope.
 
@@ -23,6 +23,11 @@ Definition diff_proj (d : sdiff) :=
   (Z.of_nat (length (sd_deployed d) + length (sd_replaced d)), merged_updates d, declared_entries d,
    v0_sorted d, storage_sorted d, nonces_sorted d).
 
+(* post-0.7 format: signature only as hashed (before 0.11.1 only invoke signatures are), events without their
+   transaction hash; version string, gas prices, DA mode, receipts and the state diff are not hashed at all *)
+Definition sig_ped (v0111 : bool) (t : txrec) : list Z := if v0111 || is_invoke t then sig_of t else [].
+Definition tx_proj_ped (v0111 : bool) (t : txrec) : term * list Z := (t_hash t, sig_ped v0111 t).
+
 Definition header_common (h : header) := (h_number h, h_state_root h, h_sequencer h, h_timestamp h, h_version_str h, h_parent h).
 Definition counts_proj (b : block) := (h_tx_count (b_hdr b), h_event_count (b_hdr b), sd_length (b_diff b), h_blob (b_hdr b)).
 Definition gas_0134 (h : header) := (h_l1_gas_wei h, h_l1_gas_fri h, h_l1_data_wei h, h_l1_data_fri h, h_l2_wei h, h_l2_fri h).
@@ -34,6 +39,13 @@ Definition committed_0134 (b : block) :=
 Definition committed_0132 (b : block) :=
   (header_common (b_hdr b), counts_proj b, map tx_proj_0132 (b_txs b), block_events (b_rcpts b),
    map receipt_proj (b_rcpts b), diff_proj (b_diff b), gas_0132 (b_hdr b)).
+
+(* the protocol version is not hashed in this format, yet decides (at 0.11.1) whether non-invoke signatures are *)
+Definition sig_rule (b : block) : bool := ver_ge (h_ver (b_hdr b)) (0, 11, 1).
+Definition committed_post07 (b : block) :=
+  let h := b_hdr b in
+  (h_number h, h_state_root h, h_sequencer h, h_timestamp h, h_tx_count h, h_event_count h, h_parent h,
+   map (tx_proj_ped (ver_ge (h_ver h) (0, 11, 1))) (b_txs b), map snd (block_events (b_rcpts b))).
 
 (* ---------- side conditions (all are width bounds of fixed-width fields, or the sequencer guarantee) ---------- *)
 (* updatedContractsDigest writes len(deployed)+len(replaced) but enumerates the merged map: the count is
@@ -87,13 +99,29 @@ Qed.
 (* 0.13.2 really identifies the empty signature with [0] *)
 Example sig_0132_not_injective : forall b h,
   tx_leaf_0132 {| t_body := b; t_sig := []; t_hash := h |} = tx_leaf_0132 {| t_body := b; t_sig := [0]; t_hash := h |}.
-Proof. intros. unfold tx_leaf_0132, sig_of. simpl. destruct b; reflexivity. Qed.
+Proof. intros. unfold tx_leaf_0132, sig_of. simpl. destruct b; try reflexivity. destruct has_sig; reflexivity. Qed.
+
+(* unfolding lemmas: used with [rewrite] so that no conversion problem ever mentions the trie at height 64 *)
+Lemma tx_commitment_unfold : forall v l,
+  tx_commitment v l = commit_root TPos2 (map (if v then tx_leaf_0134 else tx_leaf_0132) l).
+Proof. reflexivity. Qed.
+Lemma receipt_commitment_unfold : forall l, receipt_commitment l = commit_root TPos2 (map receipt_hash l).
+Proof. reflexivity. Qed.
+Lemma event_commitment_unfold : forall rs,
+  event_commitment rs = commit_root TPos2 (map (fun te => event_hash (fst te) (snd te)) (block_events rs)).
+Proof. reflexivity. Qed.
+Lemma tx_commitment_ped_unfold : forall v l, tx_commitment_ped v l = commit_root TPed (map (tx_leaf_ped v) l).
+Proof. reflexivity. Qed.
+Lemma event_commitment_ped_unfold : forall rs,
+  event_commitment_ped rs = commit_root TPed (map (fun te => event_hash_ped (snd te)) (block_events rs)).
+Proof. reflexivity. Qed.
+Global Opaque commit_root tx_commitment receipt_commitment event_commitment tx_commitment_ped event_commitment_ped.
 
 Theorem tx_commitment_injective : forall v l1 l2, small (length l1) -> small (length l2) ->
   tx_commitment v l1 = tx_commitment v l2 ->
   if v then map tx_proj_0134 l1 = map tx_proj_0134 l2 else map tx_proj_0132 l1 = map tx_proj_0132 l2.
 Proof.
-  intros v l1 l2 S1 S2 H. unfold tx_commitment in H.
+  intros v l1 l2 S1 S2 H. rewrite !tx_commitment_unfold in H.
   apply commit_pos_injective in H; try (rewrite map_length; assumption);
     try (apply leaves_ok_map; intros x; destruct v; reflexivity).
   destruct v.
@@ -104,8 +132,8 @@ Qed.
 (* ---------- receipts ---------- *)
 Lemma msgs_hash_inj : forall m1 m2, msgs_hash m1 = msgs_hash m2 -> m1 = m2.
 Proof.
-  unfold msgs_hash. intros m1 m2 H. injection H as H.
-  apply (delim0 _ _ (counted_delim _ _ msg_enc_delim)). simpl. f_equal; [f_equal; exact H | assumption].
+  unfold msgs_hash. intros m1 m2 H. injection H as L T. apply Nat2Z.inj in L.
+  destruct (concat_map_delim _ _ msg_enc_delim m1 m2 [] [] L) as [E _]; [rewrite !app_nil_r; exact T | exact E].
 Qed.
 
 Lemma receipt_hash_inj : forall r1 r2, receipt_hash r1 = receipt_hash r2 -> receipt_proj r1 = receipt_proj r2.
@@ -121,7 +149,7 @@ Qed.
 Theorem receipt_commitment_injective : forall l1 l2, small (length l1) -> small (length l2) ->
   receipt_commitment l1 = receipt_commitment l2 -> map receipt_proj l1 = map receipt_proj l2.
 Proof.
-  intros l1 l2 S1 S2 H. unfold receipt_commitment in H.
+  intros l1 l2 S1 S2 H. rewrite !receipt_commitment_unfold in H.
   apply commit_pos_injective in H; try (rewrite map_length; assumption);
     try (apply leaves_ok_map; intros x; reflexivity).
   eapply map_proj_inj; [exact receipt_hash_inj | exact H].
@@ -142,7 +170,7 @@ Theorem event_commitment_injective : forall r1 r2,
   small (length (block_events r1)) -> small (length (block_events r2)) ->
   event_commitment r1 = event_commitment r2 -> block_events r1 = block_events r2.
 Proof.
-  intros r1 r2 S1 S2 H. unfold event_commitment in H.
+  intros r1 r2 S1 S2 H. rewrite !event_commitment_unfold in H.
   apply commit_pos_injective in H; try (rewrite map_length; assumption);
     try (apply leaves_ok_map; intros x; reflexivity).
   rewrite <- (map_id (block_events r1)), <- (map_id (block_events r2)).
@@ -160,7 +188,7 @@ Theorem sd_hash_injective : forall d1 d2, updated_ok d1 -> updated_ok d2 ->
   sd_hash d1 = sd_hash d2 -> diff_proj d1 = diff_proj d2.
 Proof.
   unfold sd_hash, diff_proj, updated_ok. intros d1 d2 U1 U2 H.
-  injection H as H.
+  apply TPosN_inj in H. apply cons_inj in H. destruct H as [_ H].
   unfold updated_enc, declared_enc, v0_enc, storage_enc, nonces_enc in H.
   rewrite <- U1, <- U2 in *.
   (* section 1: updated contracts *)
@@ -173,7 +201,7 @@ Proof.
   rewrite !tcs_concat in H.
   apply (counted_delim _ _ single_delim) in H. destruct H as [E3 H].
   (* placeholders, section 4: storage *)
-  cbn [app] in H. injection H as H.
+  cbn [app] in H. apply cons_inj in H. destruct H as [_ H]. apply cons_inj in H. destruct H as [_ H].
   apply (counted_delim _ _ storage_entry_delim) in H. destruct H as [E4 H].
   (* section 5: nonces *)
   apply (delim0 _ _ (counted_delim _ _ pair_enc_delim)) in H.
@@ -183,9 +211,9 @@ Qed.
 (* without the sequencer guarantee the encoding is ambiguous: a contract that is both deployed and replaced
    makes the count exceed the number of entries, and the surplus swallows part of the next section *)
 Example sd_hash_needs_updated_ok :
-  let d1 := {| sd_deployed := [(7, 1)]; sd_replaced := [(7, 2)]; sd_nonces := []; sd_storage := [];
+  let d1 := {| sd_deployed := [(0, 1)]; sd_replaced := [(0, 2)]; sd_nonces := []; sd_storage := [];
                sd_declared_v0 := []; sd_declared_v1 := [(9, 0)]; sd_migrated := [] |} in
-  let d2 := {| sd_deployed := [(7, 2); (1, 9)]; sd_replaced := []; sd_nonces := []; sd_storage := [];
+  let d2 := {| sd_deployed := [(0, 2); (1, 9)]; sd_replaced := []; sd_nonces := []; sd_storage := [];
                sd_declared_v0 := []; sd_declared_v1 := []; sd_migrated := [] |} in
   sd_hash d1 = sd_hash d2 /\ diff_proj d1 <> diff_proj d2.
 Proof. split; [vm_compute; reflexivity | vm_compute; discriminate]. Qed.
@@ -201,40 +229,99 @@ Proof.
   apply concat_counts_injective in H; auto. destruct H as (-> & -> & -> & ->). reflexivity.
 Qed.
 
-Local Opaque tx_commitment event_commitment receipt_commitment sd_hash gas_prices_hash counts_term commit_root.
+Local Opaque tx_commitment event_commitment receipt_commitment sd_hash gas_prices_hash counts_term commit_root tx_commitment_ped event_commitment_ped.
 
 Theorem preimage_injective_0134 : forall b1 b2, block_wf b1 -> block_wf b2 ->
   block_hash_0134 b1 = block_hash_0134 b2 -> committed_0134 b1 = committed_0134 b2.
 Proof.
-  intros b1 b2 W1 W2 H. unfold block_hash_0134 in H.
-  injection H. intros Pa Ve Gp Rc Ev Tx Sd Cc Ts Sq Rt Nu.
+  intros b1 b2 W1 W2 H. unfold block_hash_0134 in H. cbv zeta in H.
+  apply TPosN_inj in H. peel H.
   assert (W1' := W1). assert (W2' := W2).
   destruct W1' as (_ & _ & _ & St1 & Sr1 & Se1 & U1), W2' as (_ & _ & _ & St2 & Sr2 & Se2 & U2).
-  apply counts_term_inj in Cc; auto.
-  apply sd_hash_injective in Sd; auto.
-  apply (tx_commitment_injective true) in Tx; auto.
-  apply event_commitment_injective in Ev; auto.
-  apply receipt_commitment_injective in Rc; auto.
-  apply gas_prices_hash_inj in Gp.
-  unfold committed_0134, header_common. rewrite Cc, Sd, Tx, Ev, Rc, Gp, Pa, Ve, Ts, Sq, Rt, Nu. reflexivity.
+  apply TC_inj in E0. apply TC_inj in E2. apply TC_inj in E3. apply TC_inj in E10.
+  apply counts_term_inj in E4; auto.
+  apply sd_hash_injective in E5; auto.
+  apply (tx_commitment_injective true) in E6; auto.
+  apply event_commitment_injective in E7; auto.
+  apply receipt_commitment_injective in E8; auto.
+  apply gas_prices_hash_inj in E9.
+  unfold committed_0134, header_common. rewrite E0, E1, E2, E3, E4, E5, E6, E7, E8, E9, E10, E12. reflexivity.
 Qed.
 
 Theorem preimage_injective_0132 : forall b1 b2, block_wf b1 -> block_wf b2 ->
   block_hash_0132 b1 = block_hash_0132 b2 -> committed_0132 b1 = committed_0132 b2.
 Proof.
-  intros b1 b2 W1 W2 H. unfold block_hash_0132 in H.
-  injection H. intros Pa Ve G4 G3 G2 G1 Rc Ev Tx Sd Cc Ts Sq Rt Nu.
+  intros b1 b2 W1 W2 H. unfold block_hash_0132 in H. cbv zeta in H.
+  apply TPosN_inj in H. peel H.
   assert (W1' := W1). assert (W2' := W2).
   destruct W1' as (_ & _ & _ & St1 & Sr1 & Se1 & U1), W2' as (_ & _ & _ & St2 & Sr2 & Se2 & U2).
-  apply counts_term_inj in Cc; auto.
-  apply sd_hash_injective in Sd; auto.
-  apply (tx_commitment_injective false) in Tx; auto.
-  apply event_commitment_injective in Ev; auto.
-  apply receipt_commitment_injective in Rc; auto.
+  apply TC_inj in E0. apply TC_inj in E2. apply TC_inj in E3.
+  apply TC_inj in E9. apply TC_inj in E10. apply TC_inj in E11. apply TC_inj in E12. apply TC_inj in E13.
+  apply counts_term_inj in E4; auto.
+  apply sd_hash_injective in E5; auto.
+  apply (tx_commitment_injective false) in E6; auto.
+  apply event_commitment_injective in E7; auto.
+  apply receipt_commitment_injective in E8; auto.
   unfold committed_0132, header_common, gas_0132.
-  rewrite Cc, Sd, Tx, Ev, Rc, G1, G2, G3, G4, Pa, Ve, Ts, Sq, Rt, Nu. reflexivity.
+  rewrite E0, E1, E2, E3, E4, E5, E6, E7, E8, E9, E10, E11, E12, E13, E15. reflexivity.
 Qed.
 
 (* the two formats never produce the same hash term: the domain-separation constant differs *)
 Theorem formats_disjoint : forall b1 b2, block_hash_0134 b1 <> block_hash_0132 b2.
-Proof. intros b1 b2 H. unfold block_hash_0134, block_hash_0132 in H. injection H. intros. discriminate. Qed.
+Proof.
+  intros b1 b2 H. unfold block_hash_0134, block_hash_0132 in H. cbv zeta in H.
+  apply TPosN_inj in H. apply cons_inj in H. destruct H as [H _]. apply TC_inj in H. vm_compute in H. discriminate H.
+Qed.
+
+(* ---------- post-0.7 format ---------- *)
+Lemma TPedN_inj : forall a b, TPedN a = TPedN b -> a = b.
+Proof. intros a b H. injection H. auto. Qed.
+
+Lemma tx_leaf_ped_inj : forall v t1 t2, tx_leaf_ped v t1 = tx_leaf_ped v t2 -> tx_proj_ped v t1 = tx_proj_ped v t2.
+Proof.
+  unfold tx_leaf_ped, tx_proj_ped, sig_ped. intros v t1 t2 H. apply ped_inj in H. destruct H as [E S].
+  apply TPedN_inj in S. apply tcs_inj in S. congruence.
+Qed.
+
+Lemma event_hash_ped_inj : forall e1 e2, event_hash_ped e1 = event_hash_ped e2 -> e1 = e2.
+Proof.
+  unfold event_hash_ped. intros [f1 k1 d1] [f2 k2 d2]. cbn [e_from e_keys e_data]. intros H.
+  apply TPedN_inj in H. peel H. apply TC_inj in E. apply TPedN_inj in E0. apply TPedN_inj in E1.
+  apply tcs_inj in E0. apply tcs_inj in E1. subst. reflexivity.
+Qed.
+
+Theorem tx_commitment_ped_injective : forall v l1 l2, small (length l1) -> small (length l2) ->
+  tx_commitment_ped v l1 = tx_commitment_ped v l2 -> map (tx_proj_ped v) l1 = map (tx_proj_ped v) l2.
+Proof.
+  intros v l1 l2 S1 S2 H. rewrite !tx_commitment_ped_unfold in H.
+  apply commit_ped_injective in H; try (rewrite map_length; assumption);
+    try (apply leaves_ok_map; intros x; reflexivity).
+  eapply map_proj_inj; [exact (tx_leaf_ped_inj v) | exact H].
+Qed.
+
+Theorem event_commitment_ped_injective : forall r1 r2,
+  small (length (block_events r1)) -> small (length (block_events r2)) ->
+  event_commitment_ped r1 = event_commitment_ped r2 -> map snd (block_events r1) = map snd (block_events r2).
+Proof.
+  intros r1 r2 S1 S2 H. rewrite !event_commitment_ped_unfold in H.
+  apply commit_ped_injective in H; try (rewrite map_length; assumption);
+    try (apply leaves_ok_map; intros x; reflexivity).
+  eapply map_proj_inj; [|exact H]. intros [t1 e1] [t2 e2] E. cbn [snd] in *. apply event_hash_ped_inj. exact E.
+Qed.
+
+Theorem preimage_injective_post07 : forall b1 b2, block_wf b1 -> block_wf b2 ->
+  sig_rule b1 = sig_rule b2 ->
+  block_hash_post07 b1 = block_hash_post07 b2 -> committed_post07 b1 = committed_post07 b2.
+Proof.
+  intros b1 b2 W1 W2 V H. unfold sig_rule in V. unfold block_hash_post07 in H. cbv zeta in H. rewrite V in H.
+  apply TPedN_inj in H. peel H.
+  destruct W1 as (_ & _ & _ & St1 & Sr1 & Se1 & U1), W2 as (_ & _ & _ & St2 & Sr2 & Se2 & U2).
+  apply TC_inj in E. apply TC_inj in E1. apply TC_inj in E2. apply TC_inj in E3. apply TC_inj in E5.
+  apply tx_commitment_ped_injective in E4; auto.
+  apply event_commitment_ped_injective in E6; auto.
+  unfold committed_post07. cbv zeta. rewrite V, E, E0, E1, E2, E3, E4, E5, E6, E9. reflexivity.
+Qed.
+
+(* the Pedersen format never coincides with a Poseidon format *)
+Theorem post07_disjoint : forall b1 b2, block_hash_post07 b1 <> block_hash_0134 b2 /\ block_hash_post07 b1 <> block_hash_0132 b2.
+Proof. intros b1 b2. split; intros H; unfold block_hash_post07, block_hash_0134, block_hash_0132 in H; cbv zeta in H; discriminate H. Qed.
